@@ -48,7 +48,7 @@ def run_prec(case):
             os.remove(f)
     with open("c.cfg", "w") as f:
         f.write(O.cfg_text(case["file"]))
-    args = ["--config=c.cfg"] + O.cli_args(case["cli"])
+    args = ["--config=c.cfg"] + O.cli_args(case["cli"], short=case.get("short", ()))
     try:
         g = getters(args)
     except shimmod.ShimError as e:
@@ -106,7 +106,8 @@ def prec_cases(draw):
     for n in O.IGNORED:
         if draw(st.integers(0, 5)) == 0:
             fil[n] = draw(O.value_strategy(n))
-    return dict(cli=cli_, file=fil)
+    short = [n for n in cli_ if n in O.SHORT and draw(st.booleans())]
+    return dict(cli=cli_, file=fil, short=short)
 
 
 # ------------------------------------------------------------------ alias substitution (metamorphic)
